@@ -29,19 +29,25 @@ theorem sum_congr (N : Nat) (f g : Nat → Nat) (h : ∀ i, g i = f i) :
   have : g = f := funext h
   rw [this]
 
+def nstop (l : List Msg) : Nat := l.count .stop
+
+/-- value of the content `l` of channel `c`: every data message may still cause `wOf c` steps, every
+    sentinel one (its removal) -/
+def cval (net : Net) (l : List Msg) (c : Nat) : Nat := ndata l * wOf net c + nstop l
+
 def chanSum (net : Net) (ch : Nat → List Msg) : Nat :=
-  ((List.range net.caps.length).map (fun c => ndata (ch c) * wOf net c)).sum
+  ((List.range net.caps.length).map (fun c => cval net (ch c) c)).sum
 
 def nodePot (net : Net) (ns : Nat → NSt) (n : Nat) : Nat :=
   match net.nodes[n]?, ns n with
-  | some nd, .d pend => planCost net pend + (2 + nd.souts.length)
-  | some _, .s pend => pend.length
+  | some nd, .d pend => planCost net pend + 2 * (1 + nd.souts.length)
+  | some _, .s pend => 2 * pend.length
   | none, _ => 0
 
 def nodeSum (net : Net) (ns : Nat → NSt) : Nat := ((List.range net.nodes.length).map (nodePot net ns)).sum
 
 /-- upper bound on the number of steps still to come once `__exit__` has begun -/
-def mu (net : Net) (s : State) : Nat := s.pc.length + chanSum net s.chans + nodeSum net s.nodes
+def mu (net : Net) (s : State) : Nat := 2 * s.pc.length + chanSum net s.chans + nodeSum net s.nodes
 
 @[simp] theorem ndata_app_stop (l : List Msg) : ndata (l ++ [.stop]) = ndata l := by
   simp [ndata, List.count_append]
@@ -51,21 +57,20 @@ def mu (net : Net) (s : State) : Nat := s.pc.length + chanSum net s.chans + node
   simp [ndata]
 @[simp] theorem ndata_cons_data (l : List Msg) : ndata (.data :: l) = ndata l + 1 := by
   simp [ndata]
-
-theorem chanSum_same (net : Net) (ch : Nat → List Msg) (c : Nat) (l : List Msg) (h : ndata l = ndata (ch c)) :
-    chanSum net (upd ch c l) = chanSum net ch := by
-  unfold chanSum
-  apply sum_congr
-  intro i
-  simp only [upd]; split
-  · rename_i e; subst e; rw [h]
-  · rfl
+@[simp] theorem nstop_app_stop (l : List Msg) : nstop (l ++ [.stop]) = nstop l + 1 := by
+  simp [nstop, List.count_append]
+@[simp] theorem nstop_app_data (l : List Msg) : nstop (l ++ [.data]) = nstop l := by
+  simp [nstop, List.count_append]
+@[simp] theorem nstop_cons_stop (l : List Msg) : nstop (.stop :: l) = nstop l + 1 := by
+  simp [nstop]
+@[simp] theorem nstop_cons_data (l : List Msg) : nstop (.data :: l) = nstop l := by
+  simp [nstop]
 
 theorem chanSum_upd (net : Net) (ch : Nat → List Msg) (c : Nat) (l : List Msg) :
-    chanSum net (upd ch c l) + (if c < net.caps.length then ndata (ch c) * wOf net c else 0) =
-    chanSum net ch + (if c < net.caps.length then ndata l * wOf net c else 0) := by
+    chanSum net (upd ch c l) + (if c < net.caps.length then cval net (ch c) c else 0) =
+    chanSum net ch + (if c < net.caps.length then cval net l c else 0) := by
   unfold chanSum
-  have := sum_upd net.caps.length c (fun c => ndata (ch c) * wOf net c) (fun c' => ndata (upd ch c l c') * wOf net c')
+  have := sum_upd net.caps.length c (fun c => cval net (ch c) c) (fun c' => cval net (upd ch c l c') c')
     (by intro i hi; simp [upd, hi])
   simpa using this
 
@@ -93,20 +98,28 @@ theorem mu_decreases (net : Net) (wf : WF net) (s : State) (a : Act) (s' : State
     have hw := wf.weight n nd hnd c hc plan (List.mem_of_getElem? hpl)
     have h1 := chanSum_upd net s.chans c rest
     have h2 := nodeSum_upd net s.nodes n (.d plan) hlt
-    simp only [hcr, if_true, hq, ndata_cons_data] at h1
+    simp only [hcr, if_true, hq, cval, ndata_cons_data, nstop_cons_data] at h1
     simp only [nodePot, hnd, hn, upd_same, planCost, List.map_nil, List.sum_nil] at h2
     simp only [mu]
     have : (ndata rest + 1) * wOf net c = ndata rest * wOf net c + wOf net c := by
       rw [Nat.add_mul]; simp
     simp only [planCost] at hw
     omega
-  | @getStop n c nd rest hnd hn hc hq =>
+  | @getStop n c nd rest hnd hn hc hq hw =>
     have hlt := lt_of_getElem? hnd
-    have h1 := chanSum_same net s.chans c rest (by rw [hq]; simp)
+    have hcr := wf.insRange n nd hnd c hc
+    have h1 := chanSum_upd net s.chans c rest
     have h2 := nodeSum_upd net s.nodes n (.s ((if nd.rebro then [c] else []) ++ nd.souts)) hlt
+    simp only [hcr, if_true, hq, cval, ndata_cons_stop, nstop_cons_stop] at h1
     simp only [nodePot, hnd, hn, upd_same, planCost, List.map_nil, List.sum_nil, List.length_append] at h2
-    simp only [mu, h1]
+    simp only [mu]
     have : (if nd.rebro = true then [c] else []).length ≤ 1 := by split <;> simp
+    omega
+  | @getStopWait n c nd rest hnd hn hc hq hw =>
+    have hcr := wf.insRange n nd hnd c hc
+    have h1 := chanSum_upd net s.chans c rest
+    simp only [hcr, if_true, hq, cval, ndata_cons_stop, nstop_cons_stop] at h1
+    simp only [mu]
     omega
   | @putData n c rest hlt hn hroom =>
     have hnd : net.nodes[n]? = some net.nodes[n] := List.getElem?_eq_getElem hlt
@@ -114,7 +127,7 @@ theorem mu_decreases (net : Net) (wf : WF net) (s : State) (a : Act) (s' : State
     have h1 := chanSum_upd net s.chans c (s.chans c ++ [.data])
     have h2 := nodeSum_upd net s.nodes n (.d rest) hlt
     simp only [nodePot, hnd, hn, upd_same, planCost_cons] at h2
-    simp only [ndata_app_data] at h1
+    simp only [cval, ndata_app_data, nstop_app_data] at h1
     simp only [mu]
     have : (ndata (s.chans c) + 1) * wOf net c = ndata (s.chans c) * wOf net c + wOf net c := by
       rw [Nat.add_mul]; simp
@@ -122,14 +135,17 @@ theorem mu_decreases (net : Net) (wf : WF net) (s : State) (a : Act) (s' : State
   | @putStop n c rest hlt hn =>
     have hnd : net.nodes[n]? = some net.nodes[n] := List.getElem?_eq_getElem hlt
     generalize net.nodes[n] = nd at hnd
-    have h1 := chanSum_same net s.chans c (s.chans c ++ [.stop]) (by simp)
+    have h1 := chanSum_upd net s.chans c (s.chans c ++ [.stop])
     have h2 := nodeSum_upd net s.nodes n (.s rest) hlt
     simp only [nodePot, hnd, hn, upd_same, List.length_cons] at h2
-    simp only [mu, h1]
-    omega
+    simp only [cval, ndata_app_stop, nstop_app_stop] at h1
+    simp only [mu]
+    split at h1 <;> omega
   | @mainPut c rest hpc =>
-    have h1 := chanSum_same net s.chans c (s.chans c ++ [.stop]) (by simp)
-    simp only [mu, h1, hpc, List.length_cons]; omega
+    have h1 := chanSum_upd net s.chans c (s.chans c ++ [.stop])
+    simp only [cval, ndata_app_stop, nstop_app_stop] at h1
+    simp only [mu, hpc, List.length_cons]
+    split at h1 <;> omega
   | @mainJoin n rest hpc hn => simp only [mu, hpc, List.length_cons]; omega
   | @mainClear rest hpc => simp only [mu, hpc, List.length_cons]; omega
 
